@@ -335,7 +335,15 @@ pub fn c12(ctx: &mut Ctx) {
     c12_pieces(ctx);
     let mut rng = ctx.rng.fork();
     let mut jobs = Vec::new();
-    let cts: [(&str, Option<bool>); 16] = [
+    let cts: [(&str, Option<bool>); 22] = [
+        // bytes 0xA0 / 0x85 are not ASCII white space: at the edge of the media type they make it another type, at the
+        // edge of a charset label an unknown label, in front of an option name another option
+        ("application/x-www-form-urlencoded\u{a0}", Some(false)),
+        ("\u{85}application/x-www-form-urlencoded", Some(false)),
+        ("application/x-www-form-urlencoded\u{a0}; charset=utf-8", Some(false)),
+        ("application/x-www-form-urlencoded; charset=utf-8\u{a0}", None),
+        ("application/x-www-form-urlencoded; charset=\u{85}utf-8", None),
+        ("application/x-www-form-urlencoded;\u{a0}charset=bogus", Some(true)),
         // (content type, Some(true) = folds as UTF-8, Some(false) = never folds, None = folds but the charset is refused)
         ("application/x-www-form-urlencoded", Some(true)),
         ("application/x-www-form-urlencoded; charset=utf-8", Some(true)),
@@ -1388,7 +1396,7 @@ pub fn c15(ctx: &mut Ctx) {
     check_passthrough(ctx, done);
 }
 
-fn check_passthrough(ctx: &mut Ctx, done: Vec<Done>) {
+pub fn check_passthrough(ctx: &mut Ctx, done: Vec<Done>) {
     for d in done {
         // the same request through the other body conversions (Vec<u8>, and () for an empty body) and through
         // the `service_for_signing_key_fn` adapter: same outcome, same returned request
